@@ -11,7 +11,7 @@ import warnings
 import numpy as np
 
 from .. import engine as E
-from ..labels import canon, csort
+from ..labels import canon, csort, fresh
 from . import common
 
 EXTRA_OPS = {"hold", "twin"}
@@ -543,8 +543,9 @@ def fam_neighbors(sim, w, rec, act, r):
     obj = act.sut
     try:
         for n in list(m.nodes)[:5]:
-            s = r.choice([1, 1, 2])
-            got = obj.nodes.neighbors(n, s) if s != 1 else obj.nodes.neighbors(n)
+            s = r.choice([1, 1, 2, 2, 3])
+            q = fresh(n)  # equal to the stored label, not the same object
+            got = obj.nodes.neighbors(q, s) if s != 1 else obj.nodes.neighbors(q)
             mine = set(m_memberships(m, n))
             exp = {x for x in m.nodes if x != n and len(mine & set(m_memberships(m, x))) >= s}
             if set(got) != exp:
@@ -552,8 +553,9 @@ def fam_neighbors(sim, w, rec, act, r):
                        f"neighbors({n!r}, s={s}) = {csort(got)!r}, expected {csort(exp)!r}")
                 return
         for e in list(m.edges)[:5]:
-            s = r.choice([1, 1, 2])
-            got = obj.edges.neighbors(e, s) if s != 1 else obj.edges.neighbors(e)
+            s = r.choice([1, 1, 2, 2, 3])
+            q = fresh(e)
+            got = obj.edges.neighbors(q, s) if s != 1 else obj.edges.neighbors(q)
             exp = {f for f in m.edges if f != e and len(set(m.edges[e]) & set(m.edges[f])) >= s}
             if set(got) != exp:
                 w.find({"C06"}, "neighbors_wrong", dict(rec, op="edges.neighbors"), act.kind,
@@ -573,7 +575,7 @@ def fam_lookup(sim, w, rec, act, r):
             if r.random() < 0.3 and target:
                 target = set(list(csort(target))[:-1])
             shape = r.choice([list, tuple, set, iter, (lambda c: (x for x in c))])
-            got = list(obj.edges.lookup(shape(list(target))))
+            got = list(obj.edges.lookup(shape([fresh(x) for x in target])))
             exp = [f for f in m.edges if set(m.edges[f]) == target]
             if got != exp:
                 w.find({"C06"}, "lookup_wrong", dict(rec, op="edges.lookup"), act.kind,
@@ -581,7 +583,7 @@ def fam_lookup(sim, w, rec, act, r):
         if m.nodes:
             n = r.choice(list(m.nodes))
             target = set(m_memberships(m, n))
-            got = list(obj.nodes.lookup(shape(list(target)) if m.edges else list(target)))
+            got = list(obj.nodes.lookup(shape([fresh(x) for x in target]) if m.edges else list(target)))
             exp = [x for x in m.nodes if set(m_memberships(m, x)) == target]
             if got != exp:
                 w.find({"C06"}, "lookup_wrong", dict(rec, op="nodes.lookup"), act.kind,
@@ -605,9 +607,9 @@ def fam_bunch(sim, w, rec, act, r):
     view = getattr(obj, side)
     try:
         try:
-            arg = shape(bunch)
+            arg = shape([fresh(x) for x in bunch])
         except TypeError:
-            arg = list(bunch)
+            arg = [fresh(x) for x in bunch]
         sub = view(arg)
         got = list(sub)
         exp = [i for i in ids if i in bunch]
